@@ -102,20 +102,21 @@ theorem rgcrLoop_spec (S : Sys V α) (hl : LawfulRgcr S) (c : Config α) (b : V)
           rw [hf.2.1] at this
           exact this
 
-/-- one solve of an RGCR object whose recycled pairs satisfy the invariant: the pairs it leaves behind satisfy it
-    again, and the returned status is judged from the true residual of the returned iterate (`SolveSound`) -/
+/-- one solve (`apply()` on a filtered right-hand side, or `correct()`) of an RGCR object whose recycled pairs satisfy
+    the invariant: the pairs it leaves behind satisfy it again, and the returned status is judged from the true residual
+    of the returned iterate (`SolveSound`) -/
 theorem rgcrSolve_spec (S : Sys V α) (hl : LawfulRgcr S) (c : Config α) (prev : State α) (dirs dirs' : List (V × V))
-    (x0 b : V) (res : Result V α) (hok : DirsOK S dirs)
-    (h : rgcrSolve S c prev dirs false x0 b = some (res, dirs')) :
-    DirsOK S dirs' ∧ SolveSound c x0 (S.nrm (resid S b x0)) (S.nrm (resid S b res.x)) res := by
-  simp only [rgcrSolve, Bool.false_eq_true, ↓reduceIte] at h
-  split at h
-  · exact absurd h (by simp)
-  · rename_i rr hrr
-    simp only [Option.some.injEq, Prod.mk.injEq] at h
-    obtain ⟨rfl, rfl⟩ := h
+    (isApply : Bool) (x0 b : V) (res : Result V α) (hok : DirsOK S dirs) (hb : isApply = true → S.Fd b = b)
+    (h : rgcrSolve S c prev dirs isApply x0 b = some (res, dirs')) :
+    DirsOK S dirs' ∧
+      SolveSound c (if isApply then S.ops.zero else x0) (S.nrm (if isApply then b else resid S b x0))
+        (S.nrm (resid S b res.x)) res := by
+  -- both modes start `_apply_intern` from `(xs, r0)` with `r0 = resid b xs`
+  have key : ∀ (xs r0 : V), r0 = resid S b xs → ∀ rr : RgcrResult V α, rgcrIntern S c prev dirs xs r0 = some rr →
+      DirsOK S rr.dirs ∧ SolveSound c xs (S.nrm r0) (S.nrm (resid S b rr.res.x)) rr.res := by
+    intro xs r0 hr0 rr hrr
     simp only [rgcrIntern] at hrr
-    rcases hsi : setInitialDefect c prev true (S.nrm (resid S b x0)) with ⟨status, st⟩
+    rcases hsi : setInitialDefect c prev true (S.nrm r0) with ⟨status, st⟩
     rw [hsi] at hrr
     obtain ⟨hst, _, hsu, hpr, hall⟩ := setInitial_spec c prev true _ _ _ hsi
     simp only at hrr
@@ -125,17 +126,86 @@ theorem rgcrSolve_spec (S : Sys V α) (hl : LawfulRgcr S) (c : Config α) (prev 
       subst hrr
       subst hst
       have hne' : status ≠ .progress := by simpa using hne
-      refine ⟨fun e he => hok e (List.mem_of_mem_take he), ?_⟩
-      refine solveSound_of S c b x0 _ _ ⟨rfl, ?_, hne', Or.inl ⟨rfl, rfl, rfl, ?_⟩⟩
+      refine ⟨hok, ?_⟩
+      refine solveSound_of S c b xs _ _ ⟨rfl, ?_, hne', Or.inl ⟨rfl, rfl, rfl, ?_⟩⟩
       · rcases hall with e | e | e <;> simp_all
       · rcases hall with e | e | e
         · exact Or.inl e
         · exact Or.inr ⟨e, (hsu.1 e).2⟩
         · exact absurd e hne'
-    · have := rgcrLoop_spec S hl c b _ x0 _ dirs st _ _ rr hok rfl (by subst hst; simp)
+    · have := rgcrLoop_spec S hl c b _ xs _ dirs st _ _ rr hok hr0 (by subst hst; simp)
         (by subst hst; simp [fuelOf]) hrr
       subst hst
-      refine ⟨fun e he => this.1 e (List.mem_of_mem_take he), ?_⟩
-      exact solveSound_of S c b x0 _ _ ⟨this.2.1, this.2.2.1, this.2.2.2.1, Or.inr this.2.2.2.2⟩
+      exact ⟨this.1, solveSound_of S c b xs _ _ ⟨this.2.1, this.2.2.1, this.2.2.2.1, Or.inr this.2.2.2.2⟩⟩
+  simp only [rgcrSolve] at h
+  cases isApply with
+  | false =>
+    simp only [Bool.false_eq_true, ↓reduceIte] at h ⊢
+    split at h
+    · exact absurd h (by simp)
+    · rename_i rr hrr
+      simp only [Option.some.injEq, Prod.mk.injEq] at h
+      obtain ⟨rfl, rfl⟩ := h
+      have := key x0 _ rfl rr hrr
+      exact ⟨fun e he => this.1 e (List.mem_of_mem_take he), this.2⟩
+  | true =>
+    simp only [↓reduceIte] at h ⊢
+    split at h
+    · exact absurd h (by simp)
+    · rename_i rr hrr
+      simp only [Option.some.injEq, Prod.mk.injEq] at h
+      obtain ⟨rfl, rfl⟩ := h
+      have hr0 : b = resid S b S.ops.zero := by rw [hl.toLawful.resid_zero, hb rfl]
+      have := key S.ops.zero b hr0 rr hrr
+      exact ⟨fun e he => this.1 e (List.mem_of_mem_take he), this.2⟩
+
+/-- the steps of a session are admissible: a step without re-initialisation keeps the system of the previous step (new
+    matrix values can only enter through `done_numeric(); init_numeric()`), every system satisfies the laws, and
+    `apply()` gets filtered right-hand sides -/
+def StepsOK (prevS : Sys V α) : List (Sys V α × Nat × Bool × V × V) → Prop
+  | [] => True
+  | (S, re, isApply, _, b) :: rest =>
+    (re = 0 → S = prevS) ∧ LawfulRgcr S ∧ (isApply = true → S.Fd b = b) ∧ StepsOK S rest
+
+/-- every solve of the session is sound with respect to ITS OWN system -/
+def SessionSound (c : Config α) : List (Sys V α × Nat × Bool × V × V) → List (Result V α) → Prop
+  | [], [] => True
+  | (S, _, isApply, x0, b) :: rest, r :: rs =>
+    SolveSound c (if isApply then S.ops.zero else x0) (S.nrm (if isApply then b else resid S b x0))
+      (S.nrm (resid S b r.x)) r ∧ SessionSound c rest rs
+  | _, _ => False
+
+theorem rgcrSessionSys_sound (c : Config α) :
+    ∀ (steps : List (Sys V α × Nat × Bool × V × V)) (prevS : Sys V α) (prev : State α) (dirs : List (V × V))
+      (rs : List (Result V α)),
+      DirsOK prevS dirs → StepsOK prevS steps → rgcrSessionSys c prev dirs steps = some rs →
+      SessionSound c steps rs := by
+  intro steps
+  induction steps with
+  | nil =>
+    intro prevS prev dirs rs _ _ h
+    simp only [rgcrSessionSys, Option.some.injEq] at h
+    subst h
+    trivial
+  | cons st rest ih =>
+    intro prevS prev dirs rs hok hsteps h
+    obtain ⟨S, re, isApply, x0, b⟩ := st
+    obtain ⟨hsame, hl, hb, hrest⟩ := hsteps
+    simp only [rgcrSessionSys] at h
+    split at h
+    · exact absurd h (by simp)
+    · rename_i r dirs' hsolve
+      split at h
+      · exact absurd h (by simp)
+      · rename_i rs' hrs
+        simp only [Option.some.injEq] at h
+        subst h
+        -- the pairs handed to this solve satisfy the invariant of ITS system: unchanged system, or empty lists
+        have hok0 : DirsOK S (if re = 0 then dirs else []) := by
+          by_cases hre : re = 0
+          · rw [if_pos hre, hsame hre]; exact hok
+          · rw [if_neg hre]; intro e he; simp at he
+        have := rgcrSolve_spec S hl c prev _ dirs' isApply x0 b r hok0 hb hsolve
+        exact ⟨this.2, ih S r.st dirs' rs' this.1 hrest hrs⟩
 
 end FeatModel.Solver
